@@ -20,6 +20,12 @@ Two further history classes come from harness/history_classes.py: one caller-own
 and syntax-level sections passed with calls of differing syntaxes ("globals"/"@gref" in the history format), and
 stylesheet values that are function calls with explicit arguments against snippets with function keywords.
 
+Two more come from harness/history_routes.py: EQUAL configurations whose mappings were built in another key order
+(via "reorder") with names that differ only in letter case, and the TWO-STEP ROUTE (one caller-owned tree from
+emmet.markup_abbreviation / stylesheet_abbreviation written out several times with stringify_markup /
+stringify_stylesheet: "op" parse / stringify in the history format).  Reordered calls go through the ties as equal
+copies; histories with two-step calls are judged by the oracle only (the history state machine has expand steps only).
+
 C08_SKIP_CORPUS=1 leaves the committed corpus out (sanity runs that must find a defect from generated input)."""
 import glob
 import json
@@ -31,6 +37,7 @@ import common
 import history_util as hu
 import history_nested as hn
 import history_classes as hc
+import history_routes as hr
 
 KEYS_SUPPORT = ('objects-kept-alive',)
 
@@ -66,6 +73,8 @@ def _slot(texts, spec):
 
 def encode_history(h, r):
     """wire case for the extracted model + what is needed to read its answer; None if outside the model"""
+    if hr.has_ops(h):
+        return None   # two-step calls: the state machine has expand steps only (oracle only)
     seq = list(h['calls']) + [h['probe']]
     nd = len(h['dicts'])
     texts = {}
@@ -84,7 +93,7 @@ def encode_history(h, r):
             continue
         di = h['objs'][c['d']] if via == 'obj' else c['d']
         spec = h['dicts'][di]
-        if via in ('copy', 'nocache'):
+        if via in ('copy', 'nocache', 'reorder'):
             cfg = nd + k
             slots.append(_slot(texts, spec))
         else:
@@ -199,6 +208,8 @@ def encode_markup_history(h, r):
     real abbreviations, real configurations, real output strings).  Calls outside MK (BEM, callbacks, lorem,
     global_config) are left out: they do not touch the text slots (checked for every call by the state tie)."""
     import markup_util as mu
+    if hr.has_ops(h):
+        return None
     seq = list(h['calls']) + [h['probe']]
     nd = len(h['dicts'])
     slots = [_mslot(s) for s in h['dicts']]
@@ -212,7 +223,7 @@ def encode_markup_history(h, r):
         else:
             di = h['objs'][c['d']] if via == 'obj' else c['d']
             spec = h['dicts'][di]
-            if via in ('copy', 'nocache'):
+            if via in ('copy', 'nocache', 'reorder'):
                 cfg = nd + k
                 slots.append(_mslot(spec))
             else:
@@ -293,6 +304,8 @@ def encode_css_history(h):
     evaluated inside Coq because the scorer uses PrimFloat); None when a stylesheet call is outside ST's
     configuration language (then the model could not follow the cache dicts)."""
     import style_util as su
+    if hr.has_ops(h):
+        return None
     seq = list(h['calls']) + [h['probe']]
     calls, which = [], []
     for k, c in enumerate(seq):
@@ -333,6 +346,8 @@ def css_tie(ctx, hs, rs, limit):
     # a fixed share for the histories with function-call values (every third pair history, then random ones)
     fn = [k for k in range(len(hs)) if hs[k][0] == 'fnargs-pair'][::3] + [k for k in range(len(hs)) if hs[k][0] == 'fnargs-random']
     fn = fn[:max(20, limit // 8)]
+    # and one for the histories with reordered equal configurations / names that differ only in letter case
+    fn += ([k for k in range(len(hs)) if hs[k][0] == 'order-pair'][::4] + [k for k in range(len(hs)) if hs[k][0] == 'order-random'])[:max(16, limit // 10)]
     order = fn + [k for k in order if k not in set(fn)]
     for k in order:
         (label, h), r = hs[k], rs[k]
@@ -376,6 +391,8 @@ def css_tie(ctx, hs, rs, limit):
             stats['histories'] += 1
             if hs[k][0].startswith('fnargs'):
                 stats['histories_with_function_call_values'] = stats.get('histories_with_function_call_values', 0) + 1
+            if hs[k][0].startswith('order'):
+                stats['histories_with_reordered_configurations_or_case_variant_names'] = stats.get('histories_with_reordered_configurations_or_case_variant_names', 0) + 1
             dd = []
             for (ck, di) in which:
                 res, cs = su.decode_show(next(it)), next(it)
@@ -418,6 +435,10 @@ def cover_history(ctx, h, r):
             ctx.cover('markup_call_after_a_call_that_raised_inside_a_nested_snippet')
         ctx.cover('call_%s_%s%s' % (rec['kind'], rec['out'][0], ('_stage%d' % rec['stage']) if rec['stage'] else ''))
         ctx.cover('via_' + c['via'])
+        if c.get('op'):
+            ctx.cover('two_step_%s_%s_%s' % (c['op'], rec['kind'], rec['out'][0]))
+        if c['via'] == 'reorder':
+            ctx.cover('call_through_an_equal_configuration_in_another_key_order_perm%d' % c.get('perm', 0))
         if rec['kind'] == 'markup' and rec['out'][0] == 'err' and rec.get('open_levels') is not None:
             ctx.cover('raised_with_%d_snippet_levels_open' % min(rec['open_levels'], 4))
             if rec['open_levels'] > 0:
@@ -426,7 +447,7 @@ def cover_history(ctx, h, r):
             ctx.cover('call_with_global_config')
         if c['via'] != 'default' and '@gref' in h['dicts'][h['objs'][c['d']] if c['via'] == 'obj' else c['d']]:
             ctx.cover('call_with_shared_global_config_object')
-        if rec['kind'] == 'stylesheet' and hc.is_fn_call_abbr(c['abbr']):
+        if rec['kind'] == 'stylesheet' and hc.is_fn_call_abbr(c.get('abbr', '')):
             ctx.cover('stylesheet_call_with_function_arguments' + ('_output_has_function' if rec['out'][0] == 'ok' and '(' in rec['out'][1] else ''))
         if c['via'] != 'default':
             di = h['objs'][c['d']] if c['via'] == 'obj' else c['d']
@@ -439,6 +460,21 @@ def cover_history(ctx, h, r):
             if (spec.get('options') or {}).get('bem.enabled') and spec.get('type') != 'stylesheet':
                 ctx.cover('bem_call')
     nt = False
+    if hr.has_ops(h):
+        n_out, other = hr.write_outs(h)
+        ctx.cover('tree_written_out_up_to_%d_times' % min(n_out, 5))
+        if other:
+            ctx.cover('tree_written_out_with_a_configuration_other_than_the_one_it_was_parsed_with')
+        if any(c.get('op') == 'stringify' for c in seq) and any(not c.get('op') for c in seq):
+            ctx.cover('two_step_calls_mixed_with_expand_calls')
+        nt = n_out >= 2
+    if any(c['via'] == 'reorder' for c in seq) or label_is_order(h):
+        cv = hr.case_variant_names(h)
+        if cv:
+            ctx.cover('reordered_configuration_with_names_differing_only_in_letter_case')
+        if cv and any(v for v in shared_cache_sets.values()):
+            ctx.cover('reordered_case_variant_table_sharing_a_cache_dict')
+        nt = nt or cv
     if h.get('globals'):
         nsyn, both = hc.global_layering(h)
         ctx.cover('shared_global_config_passed_with_%d_syntaxes' % min(nsyn, 4))
@@ -449,6 +485,16 @@ def cover_history(ctx, h, r):
         ctx.cover('histories_sharing_a_cache_between_different_snippets_or_options')
         nt = True
     return nt
+
+
+def label_is_order(h):
+    """a history that holds two equal dict specs in differing key order (the caller keeps both)"""
+    ds = h['dicts']
+    for i in range(len(ds)):
+        for j in range(i + 1, len(ds)):
+            if ds[i] == ds[j] and json.dumps(ds[i]) != json.dumps(ds[j]):
+                return True
+    return False
 
 
 # ------------------------------------------------------------------ run
@@ -494,6 +540,14 @@ def gen(ctx):
     if not os.environ.get('C08_ONLY_RANDOM'):
         hs += [('fnargs-pair', h) for h in hc.fnargs_pair_histories()]
     hs += [('fnargs-random', hc.rand_fnargs_history(rng)) for _ in range(n_cls)]
+    # equal configurations in another key order, names that differ only in letter case (harness/history_routes.py)
+    if not os.environ.get('C08_ONLY_RANDOM'):
+        hs += [('order-pair', h) for h in hr.order_pair_histories()]
+    hs += [('order-random', hr.rand_order_history(rng)) for _ in range(30 if ctx.tier == 'quick' else 900)]
+    # the two-step route: one caller-owned parsed tree written out several times
+    if not os.environ.get('C08_ONLY_RANDOM'):
+        hs += [('twostep-pair', h) for h in hr.two_step_pair_histories()]
+    hs += [('twostep-random', hr.rand_two_step_history(rng)) for _ in range(36 if ctx.tier == 'quick' else 1100)]
     return hs
 
 
@@ -528,12 +582,38 @@ def run(ctx):
         'abbreviation after : or -, with no call, (), fewer / as many / more arguments than the keyword has, comma- or space-'
         'separated numbers, units, colours, strings, nested calls, followed through the same cache dict (same dict, equal copy, '
         'Config object, other options / other snippet table, no cache) by the same keyword with fewer or no arguments (one '
-        '(call with arguments, probe) family per keyword + random histories of 1..6 calls).  The calls with a global '
+        '(call with arguments, probe) family per keyword + random histories of 1..6 calls); EQUAL ARGUMENTS IN ANOTHER KEY '
+        'ORDER, NAMES THAT DIFFER ONLY IN LETTER CASE (harness/history_routes.py): the call made through an equal (==) configuration '
+        'whose mappings -- the dict itself, snippets, options and their nested tables (markup.attributes, markup.valuePrefix, '
+        'stylesheet.unitAliases), variables, context attributes, the sections of a private global configuration -- were built in '
+        'another key order (via "reorder": reversed and three fixed permutations), transient, or kept by the caller as a second '
+        'dict / Config object, sharing one cache dict with the original, with other options on the same cache, without cache; '
+        'user stylesheet and markup snippet tables and variable tables holding names that differ only in letter case (Foo/foo, '
+        'BOX/box/Box, next to and over built-in names), named by abbreviations as written / lower / upper / capitalised / '
+        'swapped, alone, with a value, in + and > chains (per table ordered (cache-filling call, probe) pairs + random '
+        'histories of 1..6 calls); THE TWO-STEP ROUTE ("op": parse / stringify): ONE caller-owned tree from '
+        'emmet.markup_abbreviation / stylesheet_abbreviation written out 1..5 times with stringify_markup / stringify_stylesheet, '
+        'with the configuration it was parsed with (same Config object, same dict, equal copy, reordered copy), with a preview '
+        'configuration (other output options, other syntax), around ordinary expand() calls of the same and other abbreviations, '
+        're-parsed, parse raising (then nothing to write); trees whose elements carry every attribute shape the writers treat '
+        'specially (class, doubled class shorthand, id, quoted / unquoted / empty / boolean / implied values, fields in values and '
+        'text, numbering, repeats, href, self-closing, implicit names, BEM shorthands) under html, xml, xsl, jsx, vue, svelte, pug, '
+        'haml, slim and the options that rewrite names or values on output (markup.attributes, markup.valuePrefix, jsx.enabled, '
+        'tag / attribute case, quotes, compact booleans, self-closing style, reversed attributes, comments, BEM, tabstop fields, '
+        'unformatted output); stylesheet trees (numbers, units, colours, gradients, function calls, user snippets, !important) '
+        '(one fixed family per configuration + random histories of 3..8 calls).  The calls with a global '
         'configuration are judged by the oracle and the state tie only (the pipeline models take a resolved configuration '
-        'without global layers); a fixed share of the function-call histories goes through the stylesheet pipeline model.  Oracle per call: result = result of the same call alone in a pristine process (forked from a '
+        'without global layers); a fixed share of the function-call histories and of the reordered / case-variant histories goes '
+        'through the stylesheet pipeline model (a reordered call is an equal copy to the models); histories with two-step calls '
+        'are judged by the oracle only (the history state machine has expand steps only).  Oracle per call: result = result of the same call alone in a pristine process (forked from a '
         'server that imported emmet and never called it; a sample is re-checked against really fresh interpreters), = '
         'result without cache; caller dicts/Config objects deep-equal before/after; module state of emmet.* unchanged; '
-        'no emmet instance stays alive (gc: support, not proof).  non-trivial = a history in which one cache dict is used '
+        'no emmet instance stays alive (gc: support, not proof); a call through a reordered configuration = the same call with '
+        'the mappings in the written order (both pristine); write-out number n of a caller-owned tree = the same tree parsed and '
+        'written out once in a pristine process, and parse + one write-out with one configuration = expand() of it (pristine); weak '
+        'containers of emmet.* are judged when the caller has dropped its trees (their entries are keyed by nodes the caller holds).  '
+        'non-trivial = a tree written out twice or more, or a reordered configuration whose tables hold names differing only in '
+        'letter case, or a history in which one cache dict is used '
         'by configurations with different snippets or options, or a call raises on a configuration with text, or one global '
         'configuration object that defines a key on both levels is passed with calls of two or more syntaxes; distinct by content.')
     ctx.cov['partial_clause'] = ('"keeps no per-call data alive" is a statement about the CPython heap: the model covers the '
@@ -693,7 +773,11 @@ def run(ctx):
         k, j = kj
         h = hs[k][1]
         seq = list(h['calls']) + [h['probe']]
-        return pool.once(h, seq[j])
+        pc = None
+        if seq[j].get('op') == 'stringify':
+            gov = [c for c in seq[:j] if c.get('op') == 'parse' and c.get('tree') == seq[j].get('tree')]
+            pc = gov[-1] if gov else None
+        return pool.once(h, seq[j], pc=pc)
     with ThreadPoolExecutor(max_workers=common.NPROC) as ex:
         outs = list(ex.map(once, picks))
     bad = 0
